@@ -21,7 +21,15 @@
 //	          explored breadth-first with canonical-state de-duplication (engine
 //	          seqmc) on the bbolt and on the sqlite store; once with a fresh peer per
 //	          message, once with one peer for everything (reject cache and ban score
-//	          in play; no de-duplication there).
+//	          in play; no de-duplication there);
+//	lifecycle the events that are not messages: "restart" (lnd stopped and started on
+//	          the same database: reject cache, channel cache, graph cache, premature
+//	          and future-message caches, recent rejects all empty), one-entry store
+//	          caches (every lookup of another scid evicts), and the zombie life cycle
+//	          with and without StrictZombiePruning: honest updates beyond the two-week
+//	          horizon, a "prune" tick of the Builder, then updates of either direction
+//	          signed by the right node / the other channel node / a stranger, fresh and
+//	          stale, the announcement again (c20LifecycleSpaces).
 //
 // Oracle (reference model in model_test.go), evaluated after every message at
 // quiescence:
@@ -40,9 +48,21 @@
 //	              if") and exists to keep the check from passing vacuously;
 //	views         pointed lookups (FetchChannelEdgesByID, HasV1ChannelEdge: reject
 //	              and channel caches) and the in-memory graph cache that pathfinding
-//	              reads agree with the iteration.
+//	              reads agree with the iteration (not in the LazyViews spaces, where
+//	              the observer must not warm the caches);
+//	readable      after every message, accepted or rejected, the whole graph can be
+//	              read back (an iteration error is a violation) and lnd can be
+//	              restarted on its database;
+//	zombie index  an entry made by a prune tick is removed only by a fresh update
+//	              signed by the node owning the update's direction that is allowed to
+//	              resurrect (strict pruning: the node whose policy was older/missing);
+//	              an entry appears only through a prune tick or a failed funding
+//	              check. The converse (an authorised update DOES resurrect, a stale
+//	              channel IS pruned) is not demanded by C20 ("only if"): it is counted
+//	              and printed as an INFO note, never as a violation.
 //
-// Zombie / closed-scid marking is observed but never counted as a graph change.
+// The zombie / closed-scid marking of an scid whose announcement failed the funding
+// check is observed but never counted as a graph change.
 package discovery
 
 import (
@@ -109,7 +129,8 @@ func newC20Stats() *c20Stats {
 func (s *c20Stats) note(sig string, c c20Case) {
 	s.mu.Lock()
 	s.notes[sig]++
-	if old, ok := s.noteCases[sig]; !ok || len(c.Ops) < len(old.Ops) {
+	if old, ok := s.noteCases[sig]; !ok || len(c.Ops) < len(old.Ops) ||
+		(len(c.Ops) == len(old.Ops) && strings.Join(c.Ops, ",") < strings.Join(old.Ops, ",")) {
 		s.noteCases[sig] = c
 	}
 	s.mu.Unlock()
@@ -249,6 +270,9 @@ func (e *c20Exec) violate(clause, opClass, what string) {
 func c20OpClass(op string) string {
 	if i := strings.LastIndex(op, "@"); i > 0 {
 		return op[:i] + "@byte"
+	}
+	if strings.HasPrefix(op, "xCU.extra=") && strings.HasSuffix(op, "B,signed") {
+		return "xCU.extra=<N>B,signed"
 	}
 	return op
 }
@@ -480,8 +504,18 @@ func (e *c20Exec) Do(op string) error {
 	for _, b := range obs.Broadcast {
 		if !relayOK[string(b)] && outcome != "VIOLATION" {
 			dec := c20FromWire("", b)
-			e.violate("relayed-message-that-was-not-accepted", opc,
-				fmt.Sprintf("after %s (model: %s, outcome %s) the gossiper broadcast a %s that the model did not accept in this step: %x", op, v.Why, outcome, c20Kind(dec.Decoded), b))
+			// how does the relayed message relate to what was accepted in this step?
+			// (part of the signature, so that one class of defect does not hide another)
+			rel, relWhat := "", ""
+			if outcome == "applied" {
+				rel, relWhat = c20RelayRelation(b, v.Relayable)
+			}
+			roc := opc
+			if rel != "" {
+				roc = opc + "|" + rel
+			}
+			e.violate("relayed-message-that-was-not-accepted", roc,
+				fmt.Sprintf("after %s (model: %s, outcome %s) the gossiper broadcast a %s that the model did not accept in this step%s: %x", op, v.Why, outcome, c20Kind(dec.Decoded), relWhat, b))
 			outcome = "VIOLATION"
 		}
 	}
@@ -561,6 +595,112 @@ func c20Cut(v string) string {
 	return v
 }
 
+// c20RelayRelation relates a broadcast message that is not byte-identical to any
+// accepted message to the accepted ones: is it an accepted channel_update whose
+// fixed part is untouched but whose extra data lost some TLV records? (Own parser:
+// BOLT 7 layout, BOLT 1 BigSize.)
+func c20RelayRelation(b []byte, accepted [][]byte) (rel, what string) {
+	const flagsOff = 2 + 64 + 32 + 8 + 4
+	fixedLen := func(w []byte) int {
+		if len(w) < flagsOff+1 || w[0] != 0x01 || w[1] != 0x02 {
+			return -1
+		}
+		n := flagsOff + 1 + 1 + 2 + 8 + 4 + 4
+		if w[flagsOff]&1 != 0 {
+			n += 8
+		}
+		if len(w) < n {
+			return -1
+		}
+		return n
+	}
+	fb := fixedLen(b)
+	if fb < 0 {
+		return "", ""
+	}
+	rb, ok := c20TLVRecords(b[fb:])
+	if !ok {
+		return "", ""
+	}
+	for _, r := range accepted {
+		fr := fixedLen(r)
+		if fr != fb || !bytes.Equal(r[:fr], b[:fb]) {
+			continue
+		}
+		rr, ok := c20TLVRecords(r[fr:])
+		if !ok || len(rb) >= len(rr) {
+			continue
+		}
+		// rb must be a subsequence of rr
+		var dropped []uint64
+		i := 0
+		for _, rec := range rr {
+			if i < len(rb) && rb[i].typ == rec.typ && bytes.Equal(rb[i].raw, rec.raw) {
+				i++
+				continue
+			}
+			dropped = append(dropped, rec.typ)
+		}
+		if i != len(rb) {
+			continue
+		}
+		known := false
+		for _, t := range dropped {
+			if t == 55555 { // inbound fee: the one record of the extra data lnd knows
+				known = true
+			}
+		}
+		if known {
+			return "accepted-update-minus-extra-records(known-ones-too)", fmt.Sprintf(" (it is the accepted channel_update without its extra-data records of types %v)", dropped)
+		}
+		return "accepted-update-minus-unknown-extra-records", fmt.Sprintf(" (it is the accepted channel_update without its extra-data records of types %v, which lnd does not know; the signature no longer covers the relayed bytes)", dropped)
+	}
+	return "", ""
+}
+
+type c20TLVRec struct {
+	typ uint64
+	raw []byte
+}
+
+// c20TLVRecords splits a TLV stream into records (no canonicity checks).
+func c20TLVRecords(s []byte) (recs []c20TLVRec, ok bool) {
+	bigsize := func(p []byte) (uint64, int) {
+		if len(p) == 0 {
+			return 0, -1
+		}
+		switch {
+		case p[0] < 0xfd:
+			return uint64(p[0]), 1
+		case p[0] == 0xfd && len(p) >= 3:
+			return uint64(p[1])<<8 | uint64(p[2]), 3
+		case p[0] == 0xfe && len(p) >= 5:
+			return uint64(p[1])<<24 | uint64(p[2])<<16 | uint64(p[3])<<8 | uint64(p[4]), 5
+		case p[0] == 0xff && len(p) >= 9:
+			var v uint64
+			for _, x := range p[1:9] {
+				v = v<<8 | uint64(x)
+			}
+			return v, 9
+		}
+		return 0, -1
+	}
+	for len(s) > 0 {
+		t, n := bigsize(s)
+		if n < 0 {
+			return nil, false
+		}
+		l, m := bigsize(s[n:])
+		if m < 0 || uint64(len(s)-n-m) < l {
+			return nil, false
+		}
+		end := n + m + int(l)
+		recs = append(recs, c20TLVRec{typ: t, raw: s[:end]})
+		s = s[end:]
+	}
+	return recs, true
+}
+
 func c20Diff(pre, got, want []string) string {
 	set := func(l []string) map[string]bool {
 		m := map[string]bool{}
@@ -621,6 +761,12 @@ func c20RunCase(t *testing.T, c c20Case, stats *c20Stats, quiet bool, info func(
 			return e.viols, err
 		}
 		if e.dead != "" {
+			if info != nil && os.Getenv("VERIF_C20_CONTINUE") != "" {
+				// replay aid: keep going after a violation to show what follows (the
+				// model no longer shadows the implementation faithfully from here on)
+				e.dead = ""
+				continue
+			}
 			break
 		}
 	}
@@ -783,6 +929,8 @@ var c20Contexts = map[string][]string{
 	"empty":   {},
 	"channel": {"CA"},
 	"full":    {"CA", "CU0a", "CU1a", "NA1", "NA2"},
+	// node_1's policy older than node_2's, then a restart
+	"restarted": {"CA", "CU0a", "CU1b", "NA1", "NA2", "restart"},
 }
 
 func c20Workers() int {
@@ -886,7 +1034,19 @@ type c20SpaceDef struct {
 //     away from the two time-dependent thresholds (two weeks ahead / two weeks old),
 //     a sequence lasts < 3 virtual minutes;
 //   - the order inside the held-update list is not part of the key because the
-//     replay is concurrent in lnd; the model accepts every order's outcome.
+//     replay is concurrent in lnd; the model accepts every order's outcome;
+//   - the zombie entries made by prune ticks (with the resurrection rights) are part
+//     of the key; lnd's stored keys are a function of them (and compared through
+//     behaviour: who can resurrect);
+//   - restarts: the number of restarts and the set of scids the gossip path has looked
+//     up since the last one are part of the key (provenance of the store's caches:
+//     "reloaded from disk after restart n" vs "built incrementally"), so the state
+//     right after a restart, the state after the first (cold) lookup and the states
+//     before the restart are three different states even if graph and bookkeeping are
+//     equal; with a one-entry cache the last scid looked up is part of the key too;
+//   - "prune" advances the clock by one hour, so two histories reaching one key may
+//     differ by a few hours of virtual time: every timestamp of the life-cycle
+//     alphabets is at least half a day away from the two-week horizon on either side.
 //
 // Each space is explored twice and the state/transition counts compared
 // (determinism re-check); seqmc additionally verifies on every replay that the
@@ -1029,6 +1189,20 @@ func c20Worker(t *testing.T) {
 			for _, id := range fam {
 				semCases = append(semCases, c20Case{Space: "semantic/before-channel/" + be, Cfg: c20Cfg{Backend: be},
 					Ops: []string{id, "CA", "CU0a", "NA1"}})
+			}
+		}
+	}
+	// ... and each corruption delivered to an lnd that was restarted on the populated
+	// database (every in-memory cache cold; no pointed lookups by the observer
+	// before the message)
+	for _, be := range backends {
+		if be == "sql" && !tier.bytesSQL {
+			continue // thorough only
+		}
+		for _, fam := range [][]string{c20Cat.SemCA, c20Cat.SemCU, c20Cat.SemNA} {
+			for _, id := range fam {
+				semCases = append(semCases, c20Case{Space: "semantic/restarted/" + be, Cfg: c20Cfg{Backend: be, LazyViews: true},
+					Ops: append(append([]string{}, c20Contexts["restarted"]...), id)})
 			}
 		}
 	}
@@ -1203,21 +1377,54 @@ func c20Worker(t *testing.T) {
 		if a.Sig != b.Sig {
 			return a.Sig < b.Sig
 		}
-		return len(a.Case.Ops) < len(b.Case.Ops)
+		if len(a.Case.Ops) != len(b.Case.Ops) {
+			return len(a.Case.Ops) < len(b.Case.Ops)
+		}
+		return strings.Join(a.Case.Ops, ",") < strings.Join(b.Case.Ops, ",")
 	})
+	// One signature per (clause, space, op class). A single defect shows up under many
+	// signatures (every context, every length ...): at most 3 signatures per clause are
+	// confirmed and reported (shortest histories first), at most 18 altogether; the
+	// number of further signatures is stated.
 	seen := map[string]bool{}
+	perClause := map[string]int{}
+	more := map[string]int{}
 	confirmed := 0
+	sort.SliceStable(stats.findings, func(i, j int) bool {
+		return len(stats.findings[i].Case.Ops) < len(stats.findings[j].Case.Ops)
+	})
 	for _, f := range stats.findings {
 		if seen[f.Sig] {
 			continue
 		}
 		seen[f.Sig] = true
-		if confirmed >= 12 {
+		// clause, plus the fourth signature component where there is one (the
+		// relation of a relayed message to the accepted ones): a family of its own
+		clause := f.Sig
+		if parts := strings.Split(f.Sig, "|"); len(parts) > 1 {
+			clause = parts[0]
+			if len(parts) > 3 {
+				clause += "|" + parts[3]
+			}
+		}
+		if perClause[clause] >= 3 || confirmed >= 18 {
+			more[clause]++
 			continue
 		}
 		if strings.HasPrefix(f.Sig, "panic|") || c20Confirm(t, f, stats) {
 			run.Violation(f.Sig, f.What, f.Case)
+			perClause[clause]++
 			confirmed++
+		}
+	}
+	{
+		var ks []string
+		for k := range more {
+			ks = append(ks, k)
+		}
+		sort.Strings(ks)
+		for _, k := range ks {
+			c20Info("%s: %d further signatures of this clause were observed and not reported separately", k, more[k])
 		}
 	}
 	if len(stats.harness) > 0 {
@@ -1276,6 +1483,11 @@ func c20Worker(t *testing.T) {
 		"bursts (ops joined by '&') hand several messages over back to back; lnd processes them concurrently under the Go scheduler; handler interleavings inside a burst are not enumerated, the outcome must equal that of some serial order",
 		"completeness clause (valid => applied unless a documented spam defence explains the drop) is stronger than the property text and is reported under its own signature",
 		"zombie / closed-scid marking after a failed funding check is observed but not counted as a graph change",
+		"zombie index: judged for the entries made by prune ticks of the Builder (GraphPruneInterval 1 h and ChannelPruneExpiry 14 d as in production; a 'prune' event is exactly one tick of the virtual clock); resurrection rights under StrictZombiePruning follow the rule 'the node whose policy was older or missing'; a tie of the two timestamps and updates with inconsistent fields are left undecided (either outcome accepted); a channel that is stale only because a policy was never received MAY be pruned",
+		"completeness observations (an authorised fresh update does resurrect; a stale channel is pruned) are not demanded by C20 and are reported as INFO notes / coverage counters (completeness_notes), never as violations",
+		"restart = Stop of gossiper, Builder, ChannelGraph, close of the database handle, then a new store/graph/Builder/gossiper on the same files inside the same synctest bubble; the chain backend (and its tip) survives; at most 1 (thorough 2) restarts per explored history",
+		"cache sizes: 256 entries (reject and channel cache) except in the tiny-cache spaces (1 entry, the only size with deterministic eviction); LazyViews spaces observe by iteration only so that the first lookup after a restart/eviction is the gossip path's",
+		"channel_update extra data is appended to hand-assembled wire bytes (lnwire's ChannelUpdate1.Encode re-packs extra data from the records it knows); every delivery hands lnd a freshly decoded message object",
 	)
 	cov["states"] = states
 	cov["transitions"] = transitions
